@@ -19,6 +19,8 @@ claimed = {
              text='The host cancel is a one-step thread, so every cancellation point is one scheduling deviation; all schedules within the delay bound are executed on the real VM code and judged (Wait returns termination or own outcome, nothing left blocked, bounded overshoot). Deadlock and livelock are terminal states of the scheduler, not timeouts.', ref='5/C10'),
  'C11': dict(technique='bounded exhaustive enumeration of control-flow nestings vs. reference evaluator on both backends',
              text='All nestings up to depth 3/4 of 12 control constructs around 7 kinds of exit, each with and without a trailing uncaught throw, run on VM and interpreter and compared with the reference evaluator (output, outcome, caught message/position, VM residue).', ref='5/C11'),
+ 'C14': dict(technique='exhaustive exploration of Go-map iteration orders (choice points injected by the overlay rewriter) and of single-threaded schedules, within a deviation bound',
+             text='On a build where every map range is a choice point, all executions of the whole pipeline with <=1/<=2 deviating ranges (rotations of the real order) and all schedules of main core vs polling Wait within delay bound 2/3 must give identical diagnostics, output and outcome; plus repeated rounds in one process.', ref='5/C14'),
  'C16': dict(technique='explicit enumeration of all host-call histories up to a depth x all schedules within a delay bound, against the reference evaluator',
              text='All histories of SpawnSync calls over a call alphabet up to a depth on one live VM, each under all schedules within the delay bound; per-call results equal the reference model, no residue, failure instead of blocking after a failed call.', ref='5/C16'),
  'C17': dict(technique='stateless DFS over all thread interleavings of the real VM within a delay bound (controlled scheduler over lock/channel/select/sleep/spawn points)',
